@@ -13,7 +13,7 @@ LEVEL = "exploration"
 RULE = (
     "Hypothesis draws acyclic sets of 3-8 decay tables (0-4 lines, 0-4 daughters, repeated daughters, empty blocks, PHOTOS "
     "lines, aliases, particles without tables); for every mother M and 3 drawn stable sets S (arbitrary subsets of all names "
-    "involved, incl. M, M's daughters and table-less names; passed as list, tuple or set) build_decay_chains(M, S) is compared "
+    "involved, incl. M, M's daughters and table-less names; passed as list, tuple, set or frozenset, by keyword or by position) build_decay_chains(M, S) is compared "
     "with the recursive definition computed from the AST; table-less names must raise DecayNotFound. Shipped master files: "
     "mothers whose unfolding (independently counted) stays below 20000 nodes, tables taken from list_decay_modes (validated by "
     "C01), recursion/S-cut recomputed independently. Non-trivial: depth >=2 and (a repeated decaying daughter or a non-empty S "
@@ -49,7 +49,8 @@ def c09_case(draw):
     sets = []
     for _ in range(3):
         sub = draw(st.lists(st.sampled_from(names), max_size=min(5, len(names)), unique=True)) if names else []
-        sets.append({"s": sub, "as": draw(st.sampled_from(("list", "tuple", "set")))})
+        sets.append({"s": sub, "as": draw(st.sampled_from(("list", "tuple", "set", "frozenset"))),
+                     "positional": draw(st.sampled_from((False, False, True)))})
     f["stable_sets"] = sets
     return f
 
@@ -64,14 +65,22 @@ def check_case(f, rec):
     classes = set()
     for sdef in f["stable_sets"]:
         S = frozenset(sdef["s"])
-        arg = {"list": list(sdef["s"]), "tuple": tuple(sdef["s"]), "set": set(sdef["s"])}[sdef["as"]]
+        arg = {"list": list, "tuple": tuple, "set": set, "frozenset": frozenset}[sdef["as"]](sdef["s"])
         for m in tables:
             if R.count_nodes(tables, m, S) > 20000:
                 classes.add("skipped-too-big")
                 continue
             want = R.chain(tables, m, S)
-            with impl(ID, "build_decay_chains"):
-                got = p.build_decay_chains(m, stable_particles=arg)
+            try:
+                with impl(ID, "build_decay_chains"):
+                    # the stable set is the second parameter: given by keyword or by position
+                    got = p.build_decay_chains(m, arg) if sdef.get("positional") else p.build_decay_chains(m, stable_particles=arg)
+            except Mismatch as e:
+                if sdef["as"] == "frozenset" and "TypeError" in e.kind:
+                    # a frozenset is outside the annotated list/set/tuple: refusing it is fine, ignoring it is not
+                    classes.add("frozenset-refused")
+                    continue
+                raise
             got_n = norm_chain(got)
             if got_n != want:
                 raise Mismatch("C09:chain", f"mother {m!r} stable={sorted(S)} (given as {sdef['as']})", want, got_n)
@@ -91,7 +100,7 @@ def check_case(f, rec):
                 classes.add("S-contains-M")
             if any(ln["photos"] for ln in tables[m]):
                 classes.add("photos-line")
-            classes.add("S-as-" + sdef["as"])
+            classes.add("S-as-" + sdef["as"] + ("-positional" if sdef.get("positional") else ""))
     # not-found error for names without a table
     others = sorted({d for ls in tables.values() for ln in ls for d in ln["fs"]} - set(tables))
     for x in others[:3]:
